@@ -1,5 +1,5 @@
 SCHK = "verifharness/checks/storagechk"
-WIP["C23"] = dict(
+CHECKS["C23"] = dict(
     level="exploration", engine="E1",
     technique="stateful property-based testing on the full-chain simulator: generated kill / shutdown attempts by every kind of caller, repeated and followed by reward-bearing operations, with a before/after oracle over all provider records",
     level_text="Generated storage histories send kill and shutdown transactions for blobbers and validators from the contract owner, delegate wallets, provider wallets and strangers, also repeatedly, with allocations, data and extra delegates present, followed by challenges, read markers, block rewards and closes; an authorised call on a live provider must mark that provider's own stake pool dead and slash every delegate once by the configured fraction; every other call must change nothing; no stake pool node may appear under a non-provider id; other providers' records stay untouched; a dead provider's rewards never grow again.",
